@@ -154,6 +154,7 @@ def wrappers():
         add("comment%d" % i, "('|', # " + c + "\n %(E)s)[1]")
     add("comment-crlf", "('}', # }|'\r\n %(E)s)[1]")
     add("comment-first", "(# }\n %(E)s)")
+    add("comment-nospace", "('|', #}|'\n %(E)s)[1]")
     return W
 
 
@@ -234,8 +235,11 @@ def grids(tier):
     c1, c2, c3 = core1(), core2(), core3()
     d1 = dedupe(wrap(c1, W))
     d2 = dedupe(wrap(dedupe(wrap(core2s() if tier == "quick" else c2, W)), W))
+    a1 = atoms(1)
+    a1s = {x[0] for x in a1}
     out = [
-        ("atoms", a2, SUFFIX4),
+        ("atoms", a1, SUFFIX4),
+        ("atoms2", [x for x in a2 if x[0] not in a1s], SUFFIX2 if tier == "quick" else SUFFIX4),
         ("depth1", d1, SUFFIX4),
         ("depth2", d2, SUFFIX2),
         ("spacing", c2 + dedupe(wrap(c3, W[:6])), spacing_suffixes()),
